@@ -336,6 +336,10 @@ func (w *beWrap) readCommon(ctx context.Context, key []byte, do func() (interfac
 	w.s.log.be = append(w.s.log.be, rec)
 	w.s.log.mu.Unlock()
 
+	// Second yield point: the call has taken effect but the frontend has not resumed yet
+	// (makes "read before, lock after somebody else's whole build" reachable).
+	w.s.yield(ctx, "be.Read.ret", key, false)
+
 	return v, err
 }
 
@@ -361,6 +365,8 @@ func (w *beWrap) writeCommon(ctx context.Context, key []byte, v interface{}, do 
 		w.s.log.noteStored(string(key), v)
 	}
 	w.s.log.mu.Unlock()
+
+	w.s.yield(ctx, "be.Write.ret", key, false)
 
 	return rec.err
 }
